@@ -522,7 +522,109 @@ func (t *trackDialer) severFirst() {
 	}
 }
 
+// runEpFault: a real endpoint with open sessions (an application blocked reading each, a read request
+// outstanding on each) gets something it cannot serve from the proxy side, or loses the connection.
+func runEpFault(sc proxyScenario) (problems []string, skipped string) {
+	base, _ := sniGoroutines("shanhu.io/g/sniproxy")
+	fp, err := snix.NewFakeProxy()
+	if err != nil {
+		return nil, "fake proxy: " + err.Error()
+	}
+	defer fp.Close()
+	n := sc.tunnels + 1
+	type appConn struct {
+		c    net.Conn
+		done chan struct{}
+	}
+	var amu sync.Mutex
+	var apps []*appConn
+	acceptReturned := make(chan error, 1)
+	go func() {
+		for {
+			c, err := fp.EP.Accept()
+			if err != nil {
+				acceptReturned <- err
+				return
+			}
+			a := &appConn{c: c, done: make(chan struct{})}
+			amu.Lock()
+			apps = append(apps, a)
+			amu.Unlock()
+			go func() { io.Copy(io.Discard, a.c); close(a.done) }()
+		}
+	}()
+	for i := 0; i < n; i++ {
+		if err := fp.Request(uint64(i+1), 2, nil); err != nil { // msgDial
+			return nil, "dial request: " + err.Error()
+		}
+		r, ok := fp.NextReply(5 * time.Second)
+		if !ok || len(r) < 18 {
+			return nil, "no dial reply"
+		}
+		session := r[10:18]
+		// a read request that stays outstanding (the application writes nothing)
+		fp.Request(uint64(100+i), 4, append(append([]byte{}, session...), snix.U64(1024)...))
+	}
+	time.Sleep(50 * time.Millisecond)
+	switch sc.fault {
+	case "epfault-text":
+		fp.Conn.WriteMessage(websocket.TextMessage, []byte("not a frame"))
+	case "epfault-short":
+		fp.Conn.WriteMessage(websocket.BinaryMessage, []byte{1, 2, 3})
+	case "epfault-cut":
+		fp.Conn.UnderlyingConn().Close()
+	}
+	amu.Lock()
+	as := append([]*appConn{}, apps...)
+	amu.Unlock()
+	if len(as) != n {
+		return nil, fmt.Sprintf("only %d of %d sessions were accepted", len(as), n)
+	}
+	for i, a := range as {
+		select {
+		case <-a.done:
+		case <-time.After(watchdog + 6*time.Second):
+			problems = append(problems, fmt.Sprintf("read on accepted connection %d still blocked 12 s after the endpoint's serve loop ended (%s)", i, sc.fault))
+		}
+	}
+	select {
+	case <-acceptReturned:
+	case <-time.After(watchdog + 6*time.Second):
+		problems = append(problems, "Endpoint.Accept did not return after "+sc.fault)
+	}
+	if !hx.WithTimeout(watchdog+6*time.Second, func() { fp.EP.Close() }) {
+		problems = append(problems, "Endpoint.Close did not return after "+sc.fault)
+	}
+	for _, a := range as {
+		a.c.Close()
+	}
+	fp.Close()
+	deadline := time.Now().Add(watchdog + 6*time.Second)
+	for {
+		cnt, first := sniGoroutines("shanhu.io/g/sniproxy")
+		if cnt <= base {
+			break
+		}
+		if time.Now().After(deadline) {
+			head := strings.Split(first, "\n")
+			if len(head) > 10 {
+				head = head[:10]
+			}
+			problems = append(problems, fmt.Sprintf("%d sniproxy goroutine(s) left after teardown: %s", cnt-base, strings.Join(head, " | ")))
+			break
+		}
+		time.Sleep(20 * time.Millisecond)
+	}
+	return problems, ""
+}
+
 func runProxy(sc proxyScenario) (problems []string, skipped string) {
+	if strings.HasPrefix(sc.fault, "epfault-") {
+		if sc.mode != "legacy" {
+			return nil, "epfault scenarios use the multiplexed (legacy) mode"
+		}
+		return runEpFault(sc)
+	}
 	base, _ := sniGoroutines("shanhu.io/g/sniproxy")
 	opt := &sniproxy.Options{Siding: sc.mode != "legacy", DialWithAddr: sc.mode == "siding-addr"}
 	var cbMu sync.Mutex
@@ -913,11 +1015,11 @@ func main() {
 		for i := 0; i < nr; i++ {
 			ops = append(ops, genRace(r).ops()...)
 		}
-		for _, fault := range []string{"sever", "kick", "endpoint-close", "cancel", "kick-hung", "sever-backlog"} {
+		for _, fault := range []string{"sever", "kick", "endpoint-close", "cancel", "kick-hung", "sever-backlog", "epfault-text", "epfault-short", "epfault-cut"} {
 			ops = append(ops, proxyScenario{fault, 2, "legacy"}.canon())
 		}
 		for i := 0; i < np; i++ {
-			ops = append(ops, proxyScenario{hx.Pick(r, []string{"sever", "kick", "endpoint-close", "cancel", "kick-hung", "sever-backlog"}), r.Intn(4), hx.Pick(r, []string{"legacy", "legacy", "siding"})}.canon())
+			ops = append(ops, proxyScenario{hx.Pick(r, []string{"sever", "kick", "endpoint-close", "cancel", "kick-hung", "sever-backlog", "epfault-text", "epfault-short", "epfault-cut"}), r.Intn(4), hx.Pick(r, []string{"legacy", "legacy", "siding"})}.canon())
 		}
 	}
 	var lines []string
